@@ -99,7 +99,8 @@ pub fn build_image(cfg: &HistCfg) -> Built {
         if cfg.prop == "C16" && g2.nfats > 2 {
             g2.nfats = 2;
         }
-        g2.part_start = g1.part_end() + 17;
+        // (now and then directly behind the first volume: what is written past its end lands in this one)
+        g2.part_start = g1.part_end() + g1.mbr_len_extra + *rng.pick(&[0u32, 0, 17]);
         g2.part_slot = (g1.part_slot + 1 + rng.usize_below(3)) % 4;
         g2.neighbours = false;
         let mut f2 = Fmt::new_into(g2, Rng::new(rng.next_u64()), Some(img));
@@ -134,7 +135,7 @@ pub fn cfg_for(prop: &str, seed: u64, index: u64) -> HistCfg {
 pub fn cfg_for_tier(prop: &str, seed: u64, index: u64, thorough: bool) -> HistCfg {
     let mut rng = Rng::from_parts(&[seed, index, 0xC0F6, prop.bytes().fold(0u64, |a, b| a * 131 + b as u64)]);
     let profile = match prop {
-        "C01" => *rng.pick(&[Profile::Rw, Profile::Rw, Profile::Rw, Profile::Mixed]),
+        "C01" => *rng.pick(&[Profile::Rw, Profile::Rw, Profile::Rw, Profile::Mixed, Profile::Fill]),
         "C02" => *rng.pick(&[Profile::Dirs, Profile::Rw, Profile::Mixed, Profile::Grow, Profile::Fill]),
         "C03" => *rng.pick(&[Profile::Dirs, Profile::Fill, Profile::Mixed, Profile::Matrix, Profile::Grow]),
         "C04" => *rng.pick(&[Profile::Dirs, Profile::Fill, Profile::Rw, Profile::Mixed, Profile::Grow]),
@@ -213,6 +214,8 @@ pub fn run_history(cfg: &HistCfg) -> Result<Engine, String> {
     }
     if !e.aborted {
         e.teardown();
+    } else {
+        super::monitors::after_divergence(&mut e);
     }
     // final whole-medium comparison
     if !e.aborted && e.flags.remount {
